@@ -39,6 +39,19 @@ func (*c17Live) PrintAndReset(*log.Logger) {}
 func (*c17Live) PrintStats(*log.Logger)    {}
 func (*c17Live) Reset()                    {}
 
+// c17Spell: LOG_CLIENT_IP in one of the spellings the station's main() reads as "disabled" (see the app driver)
+var c17Spellings = []string{"<unset>", "false", "<unset>", "0", "False", "<unset>", "FALSE", "f", "F", "<unset>", "", "no", "off", "No", "disabled", "2"}
+
+func c17Spell(n int) string {
+	sp := c17Spellings[n%len(c17Spellings)]
+	if sp == "<unset>" {
+		os.Unsetenv("LOG_CLIENT_IP")
+	} else {
+		os.Setenv("LOG_CLIENT_IP", sp)
+	}
+	return sp
+}
+
 func TestVerifC17Ingest(t *testing.T) {
 	rec := kit.NewRec("C17", "ingest")
 	defer rec.Close()
@@ -86,7 +99,7 @@ func TestVerifC17Ingest(t *testing.T) {
 		n++
 		fmt.Fprintf(os.Stdout, "VERIFCASE %d\n", n)
 		desc := fmt.Sprintf("#%d ingest registrant=%s outcome=%s", n, clients[cl].name, outcome)
-		rec.Ev("case", map[string]interface{}{"n": n, "desc": desc})
+		rec.Ev("case", map[string]interface{}{"n": n, "desc": desc, "LOG_CLIENT_IP": c17Spell(n)})
 		secret := make([]byte, 32)
 		rng.Read(secret)
 		src := pb.RegistrationSource_API
